@@ -1,5 +1,6 @@
 import Mieru.Proofs.Arq
 import Mieru.Proofs.Duplex
+import Mieru.Proofs.Flow
 import Mieru.Model.Retx
 import Mieru.Gen.Consts
 import Mieru.Gen.Facts
@@ -306,5 +307,147 @@ example : (acceptAll init [.write 7, .send 0 7, .send 0 7, .deliver 0 7, .delive
 example : acceptAll init [.write 7, .send 0 7, .ack 1] = none ∧
     acceptAll init [.write 7, .send 0 7, .send 0 9] = none ∧
     acceptAll init [.write 7, .write 8, .send 1 8] = none := by decide
+
+/-! ## Flow control, bounded buffers, retransmission budget (`Mieru.Model.Flow`)
+
+`Mieru.Arq` cannot stall: its window never closes, its buffers are unbounded and retransmission is always
+enabled. `Mieru.Flow` has what the code has: `recvBuf`/`recvQueue` of capacity `segmentTreeCapacity`
+with arriving segments dropped when `receiveWindowSize() ≤ 0`, the advertised window stored in
+`remoteWindowSize` and gating first transmissions, `sendBuf`/`sendQueue` limits, `txCount` per
+segment and abandonment at `txCountLimit`, and an application that reads (`Step.appRead`). -/
+
+/-- the parameters the code compiles to (regenerated constants) -/
+def codeParams : Flow.Params :=
+  ⟨Gen.segmentTreeCapacity.toNat, Gen.minWindowSize.toNat, Gen.maxWindowSize.toNat, Gen.txCountLimit.toNat⟩
+
+theorem flow_params_ok : codeParams.Ok := by constructor <;> decide
+
+/-- Safety is unchanged by flow control: the projection of every reachable state to `Mieru.Arq` satisfies
+    the whole safety invariant of that model; what was moved to the receive queue is a prefix of what
+    was written, and what the application has read is a prefix of that. -/
+theorem flow_safety_unchanged {P : Flow.Params} (ok : P.Ok) {s : Flow.St} (h : Flow.Reach P s) :
+    Arq.Inv (Flow.toArq s) ∧ s.delivered = s.segs.take s.nextRecv ∧
+    s.delivered.take s.read = s.segs.take s.read ∧ s.read ≤ s.nextRecv := by
+  have hS := Flow.reach_invS ok h
+  have hlen : s.delivered.length = s.nextRecv := by
+    rw [hS.deliv, List.length_take]; have := hS.order; omega
+  have hr := hS.rd
+  refine ⟨Flow.toArq_inv hS, hS.deliv, ?_, by omega⟩
+  rw [hS.deliv, List.take_take]
+  congr 1
+  omega
+
+/-- No buffer ever overflows, so no `segmentTree.Insert` of the data path can fail: recvBuf and recvQueue
+    together hold at most `cap` segments, sendBuf at most `cap − 1`, sendQueue at most `cap − 1`, and
+    every advertised window fits its 16-bit field as long as `cap` does. -/
+theorem flow_buffers_never_overflow {P : Flow.Params} (ok : P.Ok) {s : Flow.St} (h : Flow.Reach P s) :
+    s.recvBuf.length + Flow.qlen s ≤ P.cap ∧ s.qLo - s.lo < P.cap ∧ s.segs.length - s.qLo < P.cap ∧
+    s.recvBuf.length ≤ s.qLo - s.nextRecv ∧ (∀ a ∈ s.acked, a.wnd ≤ P.cap) := by
+  have hS := Flow.reach_invS ok h
+  exact ⟨hS.capR, hS.capS, hS.capQ, Flow.recvBuf_le hS, fun a ha => (hS.ackHist a ha).2⟩
+
+/-- The head segment is never starved: whenever the application has read everything queued, the
+    receive window is open (out-of-order segments alone cannot fill the capacity, because the sender
+    keeps at most `cap − 1` segments outstanding), so the segment the receiver is waiting for is
+    accepted and released when it arrives — whatever else is buffered. -/
+theorem head_never_starved {P : Flow.Params} (ok : P.Ok) {s : Flow.St} (h : Flow.Reach P s)
+    (hr : s.read = s.delivered.length) (p : Nat) :
+    0 < Flow.rwin P s ∧ s.nextRecv < (Flow.recv P s ⟨s.nextRecv, p⟩).nextRecv := by
+  have hw := Flow.window_open_when_read (Flow.reach_invS ok h) hr
+  exact ⟨hw, Flow.recv_head_advances P s p hw⟩
+
+/-- Zero-window recovery by one ack round: from every reachable state of a live session — in particular
+    one where the sender's copy of the window is 0 and nothing is outstanding — after the application
+    has read what is queued, one ack (emitted by the heartbeat or by any data receipt) that reaches the
+    sender makes `remoteWindowSize` positive again; nothing is lost or reordered by it. -/
+theorem zero_window_recovery {P : Flow.Params} (ok : P.Ok) {s : Flow.St} (h : Flow.Reach P s) (hd : s.dead = false) :
+    ∃ t, Flow.Steps P s t ∧ 0 < t.rwnd ∧ t.qLo = s.qLo ∧ t.nextRecv = s.nextRecv ∧ t.segs = s.segs ∧ t.dead = false := by
+  obtain ⟨t, st, hrw, _, e1, e2, e3, e4, _⟩ := Flow.ack_round_reopens ok h hd
+  exact ⟨t, st, hrw, e1, e2, e3, e4⟩
+
+/-- No stuck state, in the model that can stall: a live session whose awaited segment has not used up
+    its retransmission budget can always advance the receiver by finitely many enabled steps. -/
+theorem flow_no_stuck_state {P : Flow.Params} (ok : P.Ok) {s : Flow.St} (h : Flow.Reach P s) (hd : s.dead = false)
+    (hu : s.nextRecv < s.segs.length) (hb : ∀ n, s.tx[s.nextRecv]? = some n → n < P.limit) :
+    ∃ t, Flow.Steps P s t ∧ s.nextRecv < t.nextRecv ∧ t.segs = s.segs ∧ t.dead = false := by
+  obtain ⟨t, st, a, b, c, _⟩ := Flow.no_stuck ok h hd hu hb
+  exact ⟨t, st, a, b, c⟩
+
+/-- Completion without abandonment under a cooperative schedule: everything written can be delivered
+    and the session is still alive, from every reachable state of a live session in which no needed
+    segment has exhausted its budget. -/
+theorem flow_can_complete {P : Flow.Params} (ok : P.Ok) {s : Flow.St} (h : Flow.Reach P s) (hd : s.dead = false)
+    (hb : Flow.Budget P s) : ∃ t, Flow.Steps P s t ∧ t.delivered = s.segs ∧ t.dead = false := by
+  obtain ⟨t, st, hn, hs, hdt⟩ := Flow.can_complete ok _ s h hd hb (Nat.le_refl _)
+  refine ⟨t, st, ?_, hdt⟩
+  have := (Flow.reach_invS ok (Flow.reach_steps h st)).deliv
+  rw [this, hn, List.take_length, hs]
+
+/-- Abandonment: a session is given up only when one sequence number, still unacknowledged, has been
+    put on the wire exactly `txCountLimit` times, and no cumulative ack the sender ever processed covers it. -/
+theorem abandon_means_limit_transmissions {P : Flow.Params} (ok : P.Ok) {s : Flow.St} (h : Flow.Reach P s)
+    (hd : s.dead = true) :
+    ∃ k, s.lo ≤ k ∧ k < s.qLo ∧ Flow.emitted s k = P.limit ∧ (∀ a ∈ s.ackIn, a ≤ k) := by
+  have hT := Flow.reach_invT ok h
+  obtain ⟨k, h1, h2, h3⟩ := hT.deadW hd
+  refine ⟨k, h1, h2, ?_, fun a ha => Nat.le_trans (hT.ackLo a ha) h1⟩
+  have := hT.txCnt k h2
+  rw [h3] at this
+  exact (Option.some.inj this).symm
+
+/-- … hence the connection is not abandoned while every sequence number has been transmitted fewer
+    than `txCountLimit` times. -/
+theorem not_abandoned_below_limit {P : Flow.Params} (ok : P.Ok) {s : Flow.St} (h : Flow.Reach P s)
+    (hl : ∀ k, Flow.emitted s k < P.limit) : s.dead = false := by
+  cases hd : s.dead with
+  | false => rfl
+  | true =>
+    obtain ⟨k, _, _, e, _⟩ := abandon_means_limit_transmissions ok h hd
+    have := hl k
+    omega
+
+/-- `txCount` is the number of transmissions on the wire, never above the limit -/
+theorem txcount_is_emissions {P : Flow.Params} (ok : P.Ok) {s : Flow.St} (h : Flow.Reach P s) (k : Nat) (hk : k < s.qLo) :
+    s.tx[k]? = some (Flow.emitted s k) ∧ 1 ≤ Flow.emitted s k ∧ Flow.emitted s k ≤ P.limit := by
+  have hT := Flow.reach_invT ok h
+  have e := hT.txCnt k hk
+  exact ⟨e, hT.txLim k _ e⟩
+
+/-! ### Non-vacuity of the flow-control theorems -/
+
+/-- the model CAN stall: a reachable state in which the remote window is closed (`rwnd = 0`), nothing is
+    outstanding, and a segment is waiting in the send queue -/
+example : ∃ s, Flow.Reach ⟨2, 1, 1, 2⟩ s ∧ s.rwnd = 0 ∧ s.lo = s.qLo ∧ s.qLo < s.segs.length ∧ s.dead = false ∧
+    Flow.qlen s = 2 := by
+  let P : Flow.Params := ⟨2, 1, 1, 2⟩
+  have r0 : Flow.Reach P (Flow.init P) := Flow.Reach.init
+  have r1 := Flow.Reach.step r0 (Flow.Step.write _ 7 (by decide))
+  have r2 := Flow.Reach.step r1 (Flow.Step.sendNew _ 1 7 rfl (by decide) (by decide) (by decide) (by decide) (by decide))
+  have r3 := Flow.Reach.step r2 (Flow.Step.write _ 8 (by decide))
+  have r4 := Flow.Reach.step r3 (Flow.Step.recvData _ ⟨0, 7⟩ (by decide))
+  have r5 := Flow.Reach.step r4 (Flow.Step.sendAck _)
+  have r6 := Flow.Reach.step r5 (Flow.Step.recvAck _ ⟨1, 1⟩ (by decide) (by decide))
+  have r7 := Flow.Reach.step r6 (Flow.Step.sendNew _ 1 8 (by decide) (by decide) (by decide) (by decide) (by decide) (by decide))
+  have r8 := Flow.Reach.step r7 (Flow.Step.recvData _ ⟨1, 8⟩ (by decide))
+  have r9 := Flow.Reach.step r8 (Flow.Step.sendAck _)
+  have r10 := Flow.Reach.step r9 (Flow.Step.recvAck _ ⟨2, 0⟩ (by decide) (by decide))
+  have r11 := Flow.Reach.step r10 (Flow.Step.write _ 9 (by decide))
+  exact ⟨_, r11, by decide, by decide, by decide, by decide, by decide⟩
+
+/-- … and abandonment is reachable: every transmission of segment 0 lost, budget 2 -/
+example : ∃ s, Flow.Reach ⟨2, 1, 1, 2⟩ s ∧ s.dead = true ∧ Flow.emitted s 0 = 2 ∧ s.ackIn = [] := by
+  let P : Flow.Params := ⟨2, 1, 1, 2⟩
+  have r0 : Flow.Reach P (Flow.init P) := Flow.Reach.init
+  have r1 := Flow.Reach.step r0 (Flow.Step.write _ 7 (by decide))
+  have r2 := Flow.Reach.step r1 (Flow.Step.sendNew _ 1 7 rfl (by decide) (by decide) (by decide) (by decide) (by decide))
+  have r3 := Flow.Reach.step r2 (Flow.Step.dropData _ ⟨0, 7⟩)
+  have r4 := Flow.Reach.step r3 (Flow.Step.retransmit _ 0 7 1 (by decide) (by decide) (by decide) (by decide) (by decide))
+  have r5 := Flow.Reach.step r4 (Flow.Step.dropData _ ⟨0, 7⟩)
+  have r6 := Flow.Reach.step r5 (Flow.Step.abandon _ 0 2 (by decide) (by decide) (by decide) (by decide))
+  exact ⟨_, r6, by decide, by decide, by decide⟩
+
+/-- a full receive queue closes the window and the head segment is dropped until the application reads -/
+example : (Flow.recvOp ⟨2, 1, 1, 2⟩ (Flow.recvOp ⟨2, 1, 1, 2⟩ (Flow.recvOp ⟨2, 1, 1, 2⟩ (Flow.init ⟨2, 1, 1, 2⟩)
+    (.data 0 5)) (.data 1 6)) (.data 2 7)).nextRecv = 2 := by decide
 
 end Mieru.C02
